@@ -306,6 +306,16 @@ def gen_cases(rng, tier):
                     and fields and _benign_twin(fields) != fields:
                 extra.append(dict(c, prior=True))
     cases += extra
+    # ... and after a benign definition with the SAME IDENTIFIER (name + 32-bit hash over the unseparated field names and
+    # types): moving the boundary between a field name and its type keeps the hash input and changes the definition
+    proto = next(c for c in cases if c["kind"] == "desc" and c["route"] == "stream" and not c.get("defstring"))
+    for benign, hostile in (([("string", "a"), ("varint", "b")], [("string", "a"), ("int", "bvar")]),
+                            ([("string", "astring_b")], [("string", "a"), ("string", "_b")]),
+                            ([("string", "xos.system")], [("os.systemstring", "x")] if False else [("string", "x"), ("os.system", "")]),
+                            ([("string", "foo")], [("ostring", "fo")])):
+        for route in ("stream", "json"):
+            cases.append(dict(proto, route=route, name=enc_str("c06/coll"), fields=[[enc_str(t), enc_str(n)] for t, n in hostile],
+                              prior=[list(x) for x in benign]))
     # malformed kinds (not modelled): bytes / None / numbers / wrong arity
     for raw in [["bytes-name"], ["none-name"], ["int-name"], ["bytes-field"], ["none-field"], ["int-field"],
                 ["arity1"], ["arity3"], ["fields-string"], ["fields-none"], ["list-name"], ["bytes-type"], ["none-type"]]:
@@ -554,9 +564,9 @@ def _benign_twin(fields):
     return out
 
 
-def _deliver_after_prior(base, route, name, fields):
+def _deliver_after_prior(base, route, name, fields, prior=None):
     from flow.record import RecordDescriptor
-    prior = _benign_twin(fields)
+    prior = [tuple(x) for x in prior] if prior else _benign_twin(fields)
     want = (name, tuple((t, n) for t, n in fields))
     if route == "avro":
         from flow.record.adapter.avro import schema_to_descriptor
@@ -588,7 +598,7 @@ def _deliver(base, route, name, fields, defstring=False, prior=False):
     """-> descriptor object accepted by the library (or raises)"""
     from flow.record import RecordDescriptor
     if prior:
-        return _deliver_after_prior(base, route, name, fields)
+        return _deliver_after_prior(base, route, name, fields, prior if isinstance(prior, list) else None)
     text = _defstring(name, fields) if defstring else None
     if route == "api":
         if text is not None:
